@@ -418,10 +418,77 @@ def coq_matches(coq_ans, model_ans):
     return len(nums) == len(flat) and all(F(int(n), int(d)) == x for (n, d), x in zip(nums, flat))
 
 
+
+# ------------------------------------------------------------------------------------------------
+# "all radii (local index mapping)": real ParallelGradient objects built on ranks whose radial block does not start
+# at 0 (r distributed over several simulated ranks, rotational transform depending on r) must give, for every local
+# radius, bitwise the surface gradient that the serial object gives for the same global radius.
+def radial_mapping_case(c):
+    import warnings
+    from mpi4py import MPI
+    import simdriver
+    npts, nprocs, seed = c
+
+    def work(comm):
+        warnings.simplefilter('ignore')
+        S = simdriver.Sim(comm, npts, nprocs, iota=0.8, extra={'iota_slope': 0.07})
+        L = S.remapperPhi.getLayout('v_parallel_1d')
+        r0 = int(L.starts[L.inv_dims_order[0]])
+        nr = int(L.shape[L.inv_dims_order[0]])
+        nz, nq = npts[2], npts[1]
+        idx = np.arange(nz * nq, dtype=np.int64).reshape(nz, nq)
+        phi_r = ((idx * 7919 + seed) % 1009).astype(float) / 1024.0
+        out = {}
+        for i in range(nr):
+            der = np.empty((nz, nq))
+            S.parGrad.parallel_gradient(phi_r, i, der)
+            out[r0 + i] = der.tobytes().hex()
+        return out
+    R = MPI.run(nprocs[0] * nprocs[1], work, seed=seed, timeout=600)
+    if R.outcome != 'ok':
+        return ('fail', R.outcome, R.detail[:400])
+    return ('ok', R.results)
+
+
+def radial_mapping_stage(chk):
+    quick = chk.tier == 'quick'
+    rng = random.Random(chk.seed + 5)
+    shapes = [[8, 8, 8, 8]] if quick else [[8, 8, 8, 8], [9, 7, 8, 9]]
+    grids = [(2, 1), (3, 1), (2, 2)] if quick else [(2, 1), (3, 1), (4, 1), (2, 2), (3, 2), (5, 1)]
+    cases = []
+    for npts in shapes:
+        seed = rng.randrange(1000)
+        cases.append((npts, (1, 1), seed))
+        for g in grids:
+            if g[0] <= min(npts[0], npts[3]) and g[1] <= min(npts[2], npts[3]):
+                cases.append((npts, g, seed))
+    res = implrun.run_cases('props.c13', 'radial_mapping_case', cases, tmo=900.0, chunk=1)
+    ref = {}
+    for c, r in zip(cases, res):
+        npts, g, seed = c
+        if r[0] != 'ok':
+            chk.violation('advection.ParallelGradient:run-%s' % r[1], 'ParallelGradient on grid %r: %s %s' % (g, r[1], r[2]), {'kind': 'impl', 'case': list(c)})
+            continue
+        if g == (1, 1):
+            ref[tuple(npts)] = r[1][0]
+            continue
+        chk.count(('radial-mapping', tuple(npts), g), stratum='radial-mapping', sample={'npts': npts, 'process_grid': list(g)})
+        base = ref.get(tuple(npts))
+        if base is None:
+            continue
+        for rk, out in enumerate(r[1]):
+            bad = [R for R, h in out.items() if base[R] != h]
+            if bad:
+                chk.violation('advection.ParallelGradient:local-radius-mapping',
+                              'npts=%r grid=%r rank %d: parallel_gradient for global radii %r differs from the serial object (a table is indexed with the wrong radius)'
+                              % (npts, g, rk, sorted(bad)[:6]), {'kind': 'impl', 'case': list(c), 'rank': rk, 'radii': sorted(bad)})
+                break
+
 def run():
     chk = core.Check('C13', 'proof')
     proof = core.proof_stage('C13')
     warnings.simplefilter('ignore')
+    radial_mapping_stage(chk)
     cases = gen_exact_cases(chk)
     res = implrun.run_cases('props.c13', 'exact_case', cases, tmo=600.0)
     lines, owner = [], []
